@@ -13,6 +13,11 @@ use rand::Rng;
 pub const VERSION: u8 = 1;
 
 pub fn now() -> Result<i64, SystemTimeError> {
+    #[cfg(octo_verif)]
+    if crate::verif::clock_offset() != 0 {
+        let real = SystemTime::now().duration_since(UNIX_EPOCH)?.as_secs() as i64;
+        return Ok(real + crate::verif::clock_offset());
+    }
     Ok(SystemTime::now().duration_since(UNIX_EPOCH)?.as_secs() as i64)
 }
 
